@@ -101,11 +101,58 @@ type typedNilErr struct{}
 
 func (*typedNilErr) Error() string { return "typed nil" }
 
+// error values of every reflect kind: the nil-ness test of the executor must look at the kind before it
+// calls reflect.Value.IsNil (which panics for most kinds), and must say the same on both delivery
+// routes.  All of these ARE errors (only a nil pointer counts as "no error").
+type structErr struct{}
+type strErr string
+type intErr int
+type boolErr bool
+type floatErr float64
+type arrErr [1]int
+type funcErr func()
+type mapErr map[string]int
+type sliceErr []int
+type chanErr chan int
+type ptrErr struct{}
+
+func (structErr) Error() string { return "struct-kind error" }
+func (e strErr) Error() string  { return string(e) }
+func (intErr) Error() string    { return "int-kind error" }
+func (boolErr) Error() string   { return "bool-kind error" }
+func (floatErr) Error() string  { return "float-kind error" }
+func (arrErr) Error() string    { return "array-kind error" }
+func (funcErr) Error() string   { return "func-kind error" }
+func (mapErr) Error() string    { return "map-kind error" }
+func (sliceErr) Error() string  { return "slice-kind error" }
+func (chanErr) Error() string   { return "chan-kind error" }
+func (*ptrErr) Error() string   { return "pointer error" }
+
+var errKinds = []struct {
+	name string
+	mk   func() error
+}{
+	{"plain", func() error { return errors.New("resolver failed") }},
+	{"struct", func() error { return structErr{} }},
+	{"string", func() error { return strErr("string-kind error") }},
+	{"int", func() error { return intErr(1) }},
+	{"bool", func() error { return boolErr(true) }},
+	{"float", func() error { return floatErr(1) }},
+	{"array", func() error { return arrErr{} }},
+	{"func", func() error { return funcErr(func() {}) }},
+	{"nil-func", func() error { return funcErr(nil) }},
+	{"nil-map", func() error { return mapErr(nil) }},
+	{"nil-slice", func() error { return sliceErr(nil) }},
+	{"nil-chan", func() error { return chanErr(nil) }},
+	{"pointer", func() error { return &ptrErr{} }},
+}
+
 type fval struct {
 	ft   *ftype
 	tag  int  // -1: synchronous
 	pre  bool // asynchronous, and the resolver sends the result before it returns the channel
 	tnil bool // the (successful) outcome is accompanied by a typed-nil error
+	ek   int  // the failing outcome's error value: index into errKinds (0: errors.New)
 	err  bool
 	v    *val
 	path []interface{}
@@ -315,7 +362,7 @@ type registry struct {
 
 func (p *promise) send() {
 	if p.fv.err {
-		p.ch <- graphql.ResolveResult{Error: errors.New("promise failed")}
+		p.ch <- graphql.ResolveResult{Error: errKinds[p.fv.ek].mk()}
 	} else if p.fv.tnil {
 		p.ch <- graphql.ResolveResult{Value: p.fv.v.goValue(), Error: (*typedNilErr)(nil)}
 	} else {
@@ -395,7 +442,7 @@ func (b *builder) objType(name string, t *typ) *graphql.ObjectType {
 					return p.ch, nil
 				}
 				if fv.err {
-					return nil, errors.New("resolver failed")
+					return nil, errKinds[fv.ek].mk()
 				}
 				if fv.tnil {
 					return fv.v.goValue(), (*typedNilErr)(nil)
@@ -633,6 +680,14 @@ func run(root *val, mutation bool, ranks []int, r *rng.R) observation {
 				q.feats["typed-nil-error-sync"] = true
 			}
 		}
+		if fv.err && fv.ek != 0 {
+			q.feats["error-kind-"+errKinds[fv.ek].name] = true
+			if fv.tag >= 0 {
+				q.feats["kinded-error-through-promise"] = true
+			} else {
+				q.feats["kinded-error-sync"] = true
+			}
+		}
 	})
 	schema, err := graphql.NewSchema(def)
 	if err != nil {
@@ -850,6 +905,10 @@ func setPrefill(root *val, r *rng.R) {
 	root.walk(func(fv *fval) {
 		fv.pre = some && fv.tag >= 0 && r.Chance(1, 3)
 		fv.tnil = tn && !fv.err && r.Chance(1, 3)
+		fv.ek = 0
+		if tn && fv.err && r.Chance(2, 3) {
+			fv.ek = r.Intn(len(errKinds))
+		}
 	})
 }
 
